@@ -1,7 +1,7 @@
 SPECIFICATION Spec
 CONSTANTS
   Deviations <- AllDevs
-  MaxNodes = 4
+  MaxNodes = 5
   Worlds <- QuickWorlds
   Rich = TRUE
   NumIter = 2
